@@ -254,6 +254,9 @@ MutantCases ==
              \cup UNION {{[kind |-> "prefix", p |-> p, at |-> n] :
                        n \in LET len == Len(Encode(p)) IN IF len <= 300 THEN 0..(len - 1) ELSE (0..40) \cup ((len - 5)..(len - 1))} : p \in base}
              \cup {[kind |-> "rlfifth", p |-> one, b5 |-> b5] : b5 \in {0, 1, 127, 128, 255}}
+             \* a property repeated (protocol error, verdict "either"): same value, zero / empty value, both orders
+             \cup UNION {{[kind |-> "dupprop", p |-> p, pos |-> pos, zero |-> z, first |-> fs] :
+                            pos \in 1..NProps(p), z \in BOOLEAN, fs \in BOOLEAN} : p \in {q \in base : NProps(q) \in 1..2}}
              \* every variable byte integer of the frame (remaining length = field 0, property lengths, subscription
              \* identifiers) re-written as five bytes that spell the same value
              \cup UNION {{[kind |-> "vbi5", p |-> p, fld |-> j, b5 |-> b5] :
@@ -275,6 +278,10 @@ MutantFrame(m) ==
                 val == DecVBI(f, x.s, Len(f), Len(f), FALSE).val
                 body == SubSeq(f, d.hdr + 1, x.s - 1) \o Pad5(val, m.b5) \o SubSeq(f, x.e + 1, Len(f))
             IN <<f[1]>> \o VBI(Len(body)) \o body
+  ELSE IF m.kind = "dupprop" THEN
+       LET pr == m.p.v["Props"][m.pos]
+           other == IF m.zero THEN PV(pr[1], IF PropKind(pr[1]) = "pair" THEN <<pr[2][1], <<>>>> ELSE ZeroWire(pr[1])) ELSE pr
+       IN Encode(WithProp(m.p, IF m.first THEN m.pos ELSE m.pos + 1, other))
   ELSE IF m.kind = "prefix" THEN SubSeq(f, 1, m.at)
   ELSE <<f[1], 255, 255, 255, 255, m.b5>> \o SubSeq(f, d.hdr + 1, Len(f))
 
